@@ -86,6 +86,7 @@ def run(run, replay=None):
     pool = [c for c in cases if len(c['keep']) >= 2]
     for k, c in enumerate(rng.sample(pool, min(8, len(pool)))):
         z = copy.deepcopy(c)
+        z['canary_of'] = z['id']
         z['id'] = 'canary-%d' % k
         if k % 2:
             z['keep'][0] = z['keep'][0][:-1]
